@@ -303,7 +303,7 @@ def run(ctx):
     traces = []
     seen = set()
     depth = ctx.pick(3, 4)
-    for cfg, ops, behs in exhaustive(depth, ctx.pick((1, 2, 3), (1, 2, 3))):
+    for cfg, ops, behs in exhaustive(depth, ctx.pick((1, 2), (1, 2, 3))):
         t = run_history(cfg, ops, behs)
         key = repr((sorted(cfg.items()), t["ev"]))
         if key in seen:
@@ -313,10 +313,10 @@ def run(ctx):
     ctx.exhaustive = True
     ctx.extra["exhaustive_depth"] = depth
     ctx.extra["exhaustive_distinct_histories"] = len(traces)
-    for _ in range(ctx.pick(3000, 100000)):
+    for _ in range(ctx.pick(2500, 60000)):
         traces.append(run_history(*random_history(ctx.rng)))
     # spec -> code
-    behs = ctx.simulate("LoopingSim", "LoopingSim.cfg", num=ctx.pick(60, 4000), depth=15)
+    behs = ctx.simulate("LoopingSim", "LoopingSim.cfg", num=ctx.pick(60, 600), depth=15)
     drift = 0
     for b in behs:
         t = run_history(*from_behaviour(b))
